@@ -110,8 +110,16 @@ def _created_delivered(ex, st, k):
                    ex.truth(st, cont[0].result) == z3.BoolVal(len(sets) == 1))
         if len(sets) == 1:
             g = z3.And(g, eq(sets[0].args[1], ex.opaque_field_at(st, sets[0], ct, 'source')))
+        # ... together with what the services derive the validators and the no-store decision from (C20): the created tile's
+        # cache info (cacheable flag, time stamp, size) - not the values the stale file left on the requested tile
+        meta = [e for e in evs_ if e.name == 'setattr:cacheable']
+        g = z3.And(g, ex.truth(st, cont[0].result) == z3.BoolVal(len(meta) == 1))
+        if len(meta) == 1 and len(sets) == 1:
+            g = z3.And(g, z3.BoolVal(meta[0].recv is not None and meta[0].recv.t.eq(sets[0].recv.t)),
+                       eq(meta[0].args[1], ex.opaque_field_at(st, meta[0], ct, 'cacheable')))
     yield ('created_tile_is_delivered', g,
-           'every created tile whose address was requested hands its image to the requested tile (source copied, unchanged)')
+           'every created tile whose address was requested hands its image AND its cache info (cacheable, timestamp, size) to the '
+           'requested tile')
 
 
 def _creator_gets_missing(ex, st, post, result):
@@ -175,7 +183,7 @@ def _creator_gets_missing(ex, st, post, result):
 contract(C + 'TileManager._load_tile_coords', props=['C13', 'C08', 'C04'],
          types=dict(tiles='opaque', dimensions='opaque', with_metadata='bool', rescale_till_zoom='opaque', rescaled_tiles='opaque'),
          returns='opaque', default_callee='opaque',
-         opaque_fields={'coord': 'opt[tuple[int,int,int]]', 'source': 'opt[opaque]'}, stable_fields=['coord'],
+         opaque_fields={'coord': 'opt[tuple[int,int,int]]', 'source': 'opt[opaque]', 'cacheable': 'opaque'}, stable_fields=['coord'],
          opaque_spec={'load_tiles': {}, '_is_tile_missing': {'returns': 'bool', 'pure': True}, 'creator': {'pure': True},
                       'create_tiles': {'returns': 'list[opaque]'}, '_scaled_tile': {'pure': True}, 'append': {'pure': True},
                       'isinstance': {'returns': 'bool', 'pure': True}},
